@@ -96,16 +96,21 @@ class CheckC05(core.Check):
                     sched.append(s)
                     if s[0] == "set":
                         nxt = s[1]
+        sizes = [12] * n
+        if not spec.startswith("x:"):
+            sizes = [rnd.choice([12, 12, 12, 0, 1, 65519, 4096]) for _ in range(n)]
         for j in range(n):
-            c.op("t_write", w, pay="gen:12:id%d" % j, buf=BIG, out="g%d" % j, flags=("q",))
+            c.op("t_write", w, pay="gen:%d:id%d" % (sizes[j], j), buf=BIG, out="g%d" % j, flags=("q",))
         steps = []
+        # an empty payload fits any buffer: "too small a buffer" does not exist for it
+        sched = [("d", v) if kind == "small" and sizes[v] == 0 else (kind, v) for kind, v in sched]
         for kind, v in sched:
             if kind == "d":
                 lab = c.op("t_read", r, msg="$g%d" % v, buf=BIG)
             elif kind == "small":
-                lab = c.op("t_read", r, msg="$g%d" % v, buf=11)
+                lab = c.op("t_read", r, msg="$g%d" % v, buf=max(0, sizes[v] - 1))
             elif kind == "flip":
-                lab = c.op("t_read", r, msg="$g%d~flip:%d" % (v, (v * 37) % (28 * 8)), buf=BIG)
+                lab = c.op("t_read", r, msg="$g%d~flip:%d" % (v, (v * 37) % ((sizes[v] + 16) * 8)), buf=BIG)
             elif kind == "garbage":
                 lab = c.op("t_read", r, msg="gen:28:gb", buf=BIG)
             elif kind == "oversize":
@@ -116,7 +121,7 @@ class CheckC05(core.Check):
                 lab = c.op("set_rx_nonce", r, n=v)
             steps.append((lab, kind, v))
         c.meta["steps"] = steps
-        c.info = {"key": (ci, be, d, spec), "n": n}
+        c.info = {"key": (ci, be, d, spec), "n": n, "sizes": sizes}
         return c
 
     def judge(self, case, events, death):
@@ -148,8 +153,9 @@ class CheckC05(core.Check):
                     if not e.ok:
                         r.viol("C05|next-rejected|%s" % e.errkind(), "%s/%s dir %d: message %d is the next expected one (rn=%d) but was rejected with %s; schedule %s" % (ci, be, d, v, rn, e.res, spec))
                         return r
-                    b, _, _ = decode_out(e.kv.get("out"))
-                    if b != gen_bytes("id%d" % v, 12):
+                    from ..shadow import out_matches
+
+                    if not out_matches(e, gen_bytes("id%d" % v, case.info["sizes"][v]))[0]:
                         r.viol("C05|payload", "%s/%s: accepted message %d returned a payload other than the written one" % (ci, be, v))
                         return r
                     rn += 1
